@@ -22,9 +22,9 @@ type keySpec struct {
 	Kid     rc.Hex         `json:"kid,omitempty"`
 	BaseIV  rc.Hex         `json:"base_iv,omitempty"`
 	Extra   []rc.KV        `json:"extra,omitempty"`
-	Trim    bool           `json:"trim,omitempty"`  // emit x / y without their leading zero bytes (a peer that trims)
+	Trim    bool           `json:"trim,omitempty"`   // emit x / y without their leading zero bytes (a peer that trims)
 	TrimD   bool           `json:"trim_d,omitempty"` // d without its leading zero bytes (what NewKeyFromPrivate stores: big.Int.Bytes(); d is emitted as held)
-	Shape   int            `json:"shape,omitempty"` // EC2: 0 x,y(,d); 1 d only; 2 x only (y absent); 3 y as bool (compressed point, RFC 9053 7.1.1)
+	Shape   int            `json:"shape,omitempty"`  // EC2: 0 x,y(,d); 1 d only; 2 x only (y absent); 3 y as bool (compressed point, RFC 9053 7.1.1)
 	SymK    rc.Hex         `json:"k,omitempty"`
 }
 
